@@ -314,7 +314,7 @@ func nasEncode(mi *nasMsgInfo, mv reflect.Value) []byte {
 
 func nasDecode(mi *nasMsgInfo, b []byte) reflect.Value {
 	mv := reflect.New(mi.t)
-	bb := append([]byte{}, b...)
+	bb := dirtySlack(b) // a tracked copy: the input-aliasing check overwrites it after the op
 	mv.MethodByName("Decode" + mi.name).Call([]reflect.Value{reflect.ValueOf(&bb)})
 	return mv
 }
